@@ -107,3 +107,6 @@ package core
 //@   property C02
 //@   callsite make(k) requires k <= 1048576
 //@   ensures exact: !err ==> len(data) == n
+//@   loop 0:
+//@     invariant 0 <= len(data) && len(data) <= n
+//@     decreases n - len(data)
